@@ -43,14 +43,25 @@ theorem getTab_publish (w : World) (t : Nat) (older : List Manifest) (m : Manife
 
 /-! ### the shape of one step: nothing, a drop, or one publish -/
 
+/-- how the manifest published by a step was made -/
+inductive Made (w : World) : List Manifest → Manifest → Prop where
+  | create (s : Bool) (f n : Nat) : Made w [] (createM w s f n)
+  | append (l : Manifest) (older : List Manifest) (f n : Nat) : Made w (l :: older) (appendM w l f n)
+  | overwrite (l : Manifest) (older : List Manifest) (f n : Nat) : Made w (l :: older) (overwriteM w l f n)
+  | delete (l : Manifest) (older : List Manifest) (lo hi : Nat) : Made w (l :: older) (deleteM w l lo hi)
+  | restore (l : Manifest) (older : List Manifest) (old : Manifest) (v : Nat) :
+      old ∈ l :: older → Made w (l :: older) (restoreM w l old v)
+  | index (l : Manifest) (older : List Manifest) : Made w (l :: older) (indexM w l)
+
 def PubOK (w : World) (op : Op) (t : Nat) (older : List Manifest) (m : Manifest) : Prop :=
   (getTab w.tabs t = some older ∨ (getTab w.tabs t = none ∧ older = [] ∧ ∃ s f n, op = .create t s f n)) ∧
-  (∀ l r, older = l :: r → m.version = l.version + 1) ∧ (older = [] → m.version = 1) ∧ (∀ t', op ≠ .drop t')
+  (∀ l r, older = l :: r → m.version = l.version + 1) ∧ (older = [] → m.version = 1) ∧ (∀ t', op ≠ .drop t') ∧
+  Made w older m
 
 theorem pubOK_existing {w : World} {op : Op} {t : Nat} {l : Manifest} {older : List Manifest} {m : Manifest}
-    (hg : getTab w.tabs t = some (l :: older)) (hv : m.version = l.version + 1) (hnd : ∀ t', op ≠ .drop t') :
-    PubOK w op t (l :: older) m := by
-  refine ⟨Or.inl hg, ?_, ?_, hnd⟩
+    (hg : getTab w.tabs t = some (l :: older)) (hv : m.version = l.version + 1) (hnd : ∀ t', op ≠ .drop t')
+    (hm : Made w (l :: older) m) : PubOK w op t (l :: older) m := by
+  refine ⟨Or.inl hg, ?_, ?_, hnd, hm⟩
   · intro l' r h; cases h; exact hv
   · intro h; cases h
 
@@ -68,7 +79,7 @@ theorem step_shape (w : World) (op : Op) :
     · rename_i hg
       split
       · exact .inl ⟨rfl, nd (by intro t h; cases h)⟩
-      · refine .inr (.inr ⟨t, [], _, _, ⟨Or.inr ⟨hg, rfl, _, _, _, rfl⟩, ?_, ?_, ?_⟩, rfl⟩)
+      · refine .inr (.inr ⟨t, [], _, _, ⟨Or.inr ⟨hg, rfl, _, _, _, rfl⟩, ?_, ?_, ?_, .create _ _ _⟩, rfl⟩)
         · intro l r h; cases h
         · intro _; rfl
         · intro t' h; cases h
@@ -80,7 +91,7 @@ theorem step_shape (w : World) (op : Op) :
     · rename_i l older hg
       split
       · exact .inl ⟨rfl, nd (by intro t h; cases h)⟩
-      · exact .inr (.inr ⟨t, _, _, _, pubOK_existing hg rfl (by intro t' h; cases h), rfl⟩)
+      · exact .inr (.inr ⟨t, _, _, _, pubOK_existing hg rfl (by intro t' h; cases h) (.append _ _ _ _), rfl⟩)
   | overwrite t f n =>
     simp only [step]
     split
@@ -89,14 +100,14 @@ theorem step_shape (w : World) (op : Op) :
     · rename_i l older hg
       split
       · exact .inl ⟨rfl, nd (by intro t h; cases h)⟩
-      · exact .inr (.inr ⟨t, _, _, _, pubOK_existing hg rfl (by intro t' h; cases h), rfl⟩)
+      · exact .inr (.inr ⟨t, _, _, _, pubOK_existing hg rfl (by intro t' h; cases h) (.overwrite _ _ _ _), rfl⟩)
   | delete t lo hi =>
     simp only [step]
     split
     · exact .inl ⟨rfl, nd (by intro t h; cases h)⟩
     · exact .inl ⟨rfl, nd (by intro t h; cases h)⟩
     · rename_i l older hg
-      exact .inr (.inr ⟨t, _, _, _, pubOK_existing hg rfl (by intro t' h; cases h), rfl⟩)
+      exact .inr (.inr ⟨t, _, _, _, pubOK_existing hg rfl (by intro t' h; cases h) (.delete _ _ _ _), rfl⟩)
   | restore t v =>
     simp only [step]
     split
@@ -105,14 +116,14 @@ theorem step_shape (w : World) (op : Op) :
     · rename_i l older hg
       split
       · exact .inl ⟨rfl, nd (by intro t h; cases h)⟩
-      · exact .inr (.inr ⟨t, _, _, _, pubOK_existing hg rfl (by intro t' h; cases h), rfl⟩)
+      · exact .inr (.inr ⟨t, _, _, _, pubOK_existing hg rfl (by intro t' h; cases h) (.restore _ _ _ _ (List.mem_of_find?_eq_some (by assumption))), rfl⟩)
   | index t =>
     simp only [step]
     split
     · exact .inl ⟨rfl, nd (by intro t h; cases h)⟩
     · exact .inl ⟨rfl, nd (by intro t h; cases h)⟩
     · rename_i l older hg
-      exact .inr (.inr ⟨t, _, _, _, pubOK_existing hg rfl (by intro t' h; cases h), rfl⟩)
+      exact .inr (.inr ⟨t, _, _, _, pubOK_existing hg rfl (by intro t' h; cases h) (.index _ _), rfl⟩)
   | drop t =>
     simp only [step]
     split
@@ -210,6 +221,40 @@ theorem tabsInLog_run (ops : List Op) : ∀ w : World, TabsInLog w → TabsInLog
   | nil => intro w h; exact h
   | cons op r ih => intro w h; exact ih _ (tabsInLog_step w op h)
 
+theorem getTab_mem {tabs : List (Nat × List Manifest)} {t : Nat} {ms : List Manifest} (h : getTab tabs t = some ms) :
+    (t, ms) ∈ tabs := by
+  induction tabs with
+  | nil => cases h
+  | cons e r ih =>
+    obtain ⟨t', ms'⟩ := e
+    simp only [getTab] at h
+    split at h
+    · rename_i ht; cases h; subst ht; exact List.mem_cons_self ..
+    · exact List.mem_cons_of_mem _ (ih h)
+
+/-- every version of every entry of `tabs` is in the log -/
+def AllTabsInLog (w : World) : Prop := ∀ t ms m, (t, ms) ∈ w.tabs → m ∈ ms → (t, m) ∈ w.log
+
+theorem allTabsInLog_step (w : World) (op : Op) (h : AllTabsInLog w) : AllTabsInLog (step w op).1 := by
+  rcases step_shape w op with ⟨hs, _⟩ | ⟨t, _, hs⟩ | ⟨t, older, m, nv, ⟨hold, _⟩, hs⟩ <;> rw [hs]
+  · exact h
+  · intro t' ms m hg hm
+    simp only [dropTab, List.mem_filter] at hg
+    exact h t' ms m hg.1 hm
+  · intro t' ms m' hg hm
+    simp only [publish, List.mem_cons, Prod.mk.injEq] at hg ⊢
+    rcases hg with ⟨rfl, rfl⟩ | hg
+    · simp only [List.mem_cons] at hm
+      rcases hm with hm | hm
+      · left; exact ⟨rfl, hm⟩
+      · right
+        rcases hold with hold | ⟨_, hold, _⟩
+        · exact h _ older m' (getTab_mem hold) hm
+        · subst hold; cases hm
+    · right
+      simp only [dropTab, List.mem_filter] at hg
+      exact h t' ms m' hg.1 hm
+
 /-! ### version numbers (no location is created twice) -/
 
 def logOf (t : Nat) (log : List (Nat × Manifest)) : List Manifest := (log.filter (fun e => decide (e.1 = t))).map (·.2)
@@ -241,7 +286,7 @@ theorem logOf_cons_ne {t t' : Nat} (m : Manifest) (log : List (Nat × Manifest))
 
 theorem versOK_step (w : World) (op : Op) (dropped : List Nat) (h : VersOK w dropped)
     (hc : ∀ t s f n, op = .create t s f n → t ∉ dropped) : VersOK (step w op).1 (droppedAfter dropped op) := by
-  rcases step_shape w op with ⟨hs, hdrop⟩ | ⟨t, ht, hs⟩ | ⟨t, older, m, nv, ⟨hold, hv, hv1, hnodrop⟩, hs⟩ <;> rw [hs]
+  rcases step_shape w op with ⟨hs, hdrop⟩ | ⟨t, ht, hs⟩ | ⟨t, older, m, nv, ⟨hold, hv, hv1, hnodrop, _⟩, hs⟩ <;> rw [hs]
   · cases op <;> try exact h
     rename_i t
     simp only [droppedAfter]
